@@ -7,7 +7,7 @@ from ..catalogue import catalogue, is_effect
 from ..lifecycle import lifecycle
 from ..handles import handles
 from .common import where, cls_short, contexts, capabilities, types, short, honoured, SPEC_TYPES
-from .flows import post_dispatch
+from .flows import post_dispatch, prefired_fires
 from .c04 import index_hazards
 
 EXPLANATION = (
@@ -18,7 +18,8 @@ EXPLANATION = (
     "lookup is guarded (miss -> abort, nothing else), broker-bound and reserved types only abort; E3 - hazards on values "
     "derived from the packet outside any catching try: unbounded index into a constant table, registry lookup by network "
     "identifier without KeyError handler, method call on a handle that can be None, cancel() of a handle that already "
-    "fired; no abstract path of these entry points leaves by exception; E4 - every self./state/factory call resolves and "
+    "fired, callback()/errback() without a .called test on an entry of a registry that can hold an already fired Deferred; a "
+    "constant sequence of names indexed by a packet value is walked entry by entry with an IndexError edge; no abstract path of these entry points leaves by exception; E4 - every self./state/factory call resolves and "
     "no name is undefined on these paths; E5 - a packet that does not belong to the current state/profile, and a failed "
     "decode, cause no delivery, no Deferred success, no registry change. Does not decide value-level decoding faults that "
     "do not raise (e.g. a truncated QoS 0 PUBLISH delivered short).")
@@ -202,7 +203,12 @@ def check(ctx):
             ctx.ob("E3", "%s no cancel() of a handle that already fired" % cq, False, where=where(e), function=e.func,
                    construct="%s/fired-handle/%s/%s" % (ent.func.qual, ".".join(loc), short(e.func)),
                    msg="%s leaves its fired handle in %s and %s cancels it: AlreadyCalled escapes" % (short(ent.func.qual), ".".join(loc), short(e.func)))
-        # every client-bound type has a handler, found through the guarded lookup
+        for tr, f, rg, (tr0, st0, rg0) in prefired_fires(cat):
+            if tr.kind in ("NET", "TIMER", "LOSS"):
+                ctx.ob("E3", "%s no second firing of an already fired Deferred (%s)" % (cq, tr.label()), False, where=where(f), function=f.func,
+                       construct="%s/prefired/%s" % (f.func, rg),
+                       msg="callback()/errback() of a request taken from %s without testing .called; %s registers requests whose Deferred "
+                           "is already fired (%s): AlreadyCalledError escapes" % (rg, tr0.label(), where(st0)))
         names = {tr.name for tr in contexts(cat) if tr.kind == "NET" and tr.slot is not None}
         exp = {n for k, (n, d) in SPEC_TYPES.items() if d in ("s2c", "both")}
         ctx.ob("E2", "%s every client-bound packet type has a handler" % cq, exp <= names, where=cls.module.path,
